@@ -240,7 +240,7 @@ class Analysis:
         return norm(canon(x))
 
     def rvalues(self, fi: FunctionInfo, e: ast.expr, at: ast.AST, g: Optional[CFG] = None, start: Optional[Node] = None,
-                keep: Optional[Callable[[str], bool]] = None, depth: int = 3) -> List[Tuple[Conj, str]]:
+                keep: Optional[Callable[[str], bool]] = None, depth: int = 3, calls: bool = False) -> List[Tuple[Conj, str]]:
         """Reaching conditional values of expression `e` at statement `at`: for every acyclic path
         to `at`, locals in `e` are replaced by their last definition on that path (recursively, to
         `depth`), conditional expressions are split; the result is a list of (path guard, canonical
@@ -266,7 +266,7 @@ class Analysis:
                     tg = n.ast.targets[0] if isinstance(n.ast, ast.Assign) and len(n.ast.targets) == 1 else (n.ast.target if isinstance(n.ast, ast.AnnAssign) else None)
                     if isinstance(tg, ast.Name):
                         # call results are not propagated (a call is an effect, and its text would hide the local's role)
-                        if any(isinstance(x, ast.Call) for x in ast.walk(n.ast.value)):
+                        if not calls and any(isinstance(x, ast.Call) for x in ast.walk(n.ast.value)):
                             last.pop(tg.id, None)
                         else:
                             last[tg.id] = n.ast.value
@@ -304,6 +304,24 @@ class Analysis:
                 res.append((c, v))
         return sorted(res, key=lambda t: (t[1], sorted(t[0])))
 
+    def ret_values(self, f: FunctionInfo, bind: Optional[Dict[str, str]] = None, keep=None) -> List[Tuple[Conj, str]]:
+        """Conditional return values of a function: (guard, canonical value text) per return, with
+        conditional expressions split and parameters textually replaced by `bind`."""
+        g = self.cfg(f, "plain")
+        out: List[Tuple[Conj, str]] = []
+        for n in g.nodes:
+            if n.kind == "stmt" and isinstance(n.ast, ast.Return) and n.ast.value is not None:
+                out.extend(self.rvalues(f, n.ast.value, n, g, keep=keep))
+        if bind:
+            import re as _re
+
+            def sub(t: str) -> str:
+                for k, v in bind.items():
+                    t = _re.sub(r"\b%s\b" % _re.escape(k), v, t)
+                return t
+            out = [(frozenset((sub(a), p_) for a, p_ in c), sub(v)) for c, v in out]
+        return out
+
     def cvalues(self, fi: FunctionInfo, name: str, g: Optional[CFG] = None, start: Optional[Node] = None,
                 stop: Iterable[str] = ()) -> List[Tuple[Conj, str]]:
         """Conditional value set of a local: one (guard, canonical value text) per
@@ -340,6 +358,9 @@ class Analysis:
     def atom(self, e: ast.expr, fi: Optional[FunctionInfo]) -> Atom:
         """Canonical atom (text, polarity) for a non-boolean-operator test."""
         def tx(x):
+            # canonical spelling (comprehension variables renamed, map/filter/lambda unified)
+            if any(isinstance(y, (ast.Lambda, ast.GeneratorExp, ast.ListComp)) for y in ast.walk(x)):
+                return norm(canon(x))
             return norm(x)
         if isinstance(e, ast.UnaryOp) and isinstance(e.op, ast.Not):
             a, pol = self.atom(e.operand, fi)
